@@ -102,7 +102,7 @@ def find_loop_func(ctx, chk):
     return chk
 
 
-def check_comparator(ctx, rep, chk, site):
+def check_comparator(ctx, rep, chk, site, RULE="Q1"):
     loop_func = find_loop_func(ctx, chk)
     h = CheckHooks(loop_func)
     eng = Engine(ctx, h)
@@ -110,7 +110,7 @@ def check_comparator(ctx, rep, chk, site):
     lp = h.loop
     chk_outer, chk = chk, loop_func
     if lp is None:
-        rep.ob("Q1", False, chk.node, chk, witness="strict check does not iterate over the atoms")
+        rep.ob(RULE, False, chk.node, chk, witness="strict check does not iterate over the atoms")
         return
     node = lp["node"]
     # the loop iterates the graph's full atom list
@@ -127,12 +127,12 @@ def check_comparator(ctx, rep, chk, site):
                         and isinstance(c.func, ast.Attribute) and c.func.attr == "append" and c.args
                         and isinstance(c.args[0], ast.Name) and c.args[0].id == add_atom.posparams[1]}
             ok_iter = bool(fields) and fields <= appended
-    rep.ob("Q1", ok_iter, node, chk, construct="atoms iterated by the strict check",
+    rep.ob(RULE, ok_iter, node, chk, construct="atoms iterated by the strict check",
            how="the full atom list of the graph (the list every added atom is appended to)",
            witness=None if ok_iter else "strict check does not iterate over the graph's complete atom list", key="all-atoms", nontrivial=True)
     tgt = node.target
     if not isinstance(tgt, ast.Name):
-        rep.ob("Q1", False, node, chk, witness="loop target is not a single atom variable")
+        rep.ob(RULE, False, node, chk, witness="loop target is not a single atom variable")
         return
     atomv = lp["entered"][0].env.get(tgt.id) if lp["entered"] else None
     if atomv is None:
@@ -165,11 +165,11 @@ def check_comparator(ctx, rep, chk, site):
                 probs.append("an atom passes although count <= capacity is not entailed")
             agg.setdefault(("accept", tuple(probs)), node)
     for (kind, probs), where in agg.items():
-        rep.ob("Q1", not probs, where, chk, construct="path %sing an atom" % ("record" if kind == "record" else "accept"),
+        rep.ob(RULE, not probs, where, chk, construct="path %sing an atom" % ("record" if kind == "record" else "accept"),
                how="count(atom) > capacity(atom) entailed" if kind == "record" else "count(atom) <= capacity(atom) entailed",
                witness="; ".join(probs) or None, nontrivial=True, key="%s/%s" % (kind, "ok" if not probs else probs[0][:40]))
     if not n_rec or not n_skip:
-        rep.ob("Q1", False, node, chk, construct="comparator paths", witness="expected both a recording and an accepting path (found %d / %d)" % (n_rec, n_skip))
+        rep.ob(RULE, False, node, chk, construct="comparator paths", witness="expected both a recording and an accepting path (found %d / %d)" % (n_rec, n_skip))
     # raise iff something was recorded
     rec_keys = {t[1] for st in paths for t in st.tags if t[0] == "record"}
     # after the loop the recorded container is the loop-mutated variable
@@ -184,7 +184,7 @@ def check_comparator(ctx, rep, chk, site):
         if not _truthy_container(st, False):
             probs.append("normal return is possible although a violation was recorded")
     # the container starts empty and is only appended to
-    rep.ob("Q1", not probs, raises[0][1] if raises else chk_outer.node, chk_outer, construct="raise decision",
+    rep.ob(RULE, not probs, raises[0][1] if raises else chk_outer.node, chk_outer, construct="raise decision",
            how="raises iff the list of recorded violations is non-empty", witness="; ".join(sorted(set(probs))) or None,
            nontrivial=True, key="raise-iff/" + ("ok" if not probs else sorted(set(probs))[0][:40]))
     inits = [n for n in own_nodes(chk.node) if isinstance(n, ast.Assign) and isinstance(n.value, (ast.List, ast.Call))]
@@ -198,7 +198,7 @@ def check_comparator(ctx, rep, chk, site):
                  and isinstance(c.func.value, ast.Name) and c.func.value.id == nm
                  and c.func.attr in ("clear", "pop", "remove", "discard", "popleft")]
         ok = empty and not other
-        rep.ob("Q1", ok, ini[0] if ini else chk.node, chk, construct="violation list %s" % nm, how="starts empty, only grows",
+        rep.ob(RULE, ok, ini[0] if ini else chk.node, chk, construct="violation list %s" % nm, how="starts empty, only grows",
                witness=None if ok else "the list of recorded violations is not a fresh, grow-only list", key="list/" + nm)
 
 
@@ -295,18 +295,35 @@ def _key_ok(key, want):
     return key == want
 
 
-def run(ctx, rep):
-    eff = Effects(ctx)
+def strict_check(ctx, eff=None):
+    """(encoder core, strict-only check function, its call site, strict=True region, strict=False region)"""
+    eff = eff or Effects(ctx)
     setter, table_vars = eff.table_vars()
     enc, direct, on, off = find_strict_check(ctx, eff)
     # the check function: the strict-only callee that reads the table
-    chk = None
+    chk = site = None
     for g, s in direct:
         reads = eff.module_var_reads(g)
         if any(tv in reads for tv in table_vars):
             chk, site = g, s
     if chk is None:
         raise AnalysisError("no strict-only callee of encoder reads the constraint table")
+    return enc, chk, site, on, off
+
+
+def check_acceptance(ctx, rep, RULE):
+    """shared with C03 / C10: what strict=True accepts is exactly the molecules within capacity (count <= capacity with the
+    explicit hydrogens subtracted, every atom examined) -- their statements quantify over 'SMILES the encoder accepts'"""
+    eff = Effects(ctx)
+    enc, chk, site, on, off = strict_check(ctx, eff)
+    check_comparator(ctx, rep, chk, site, RULE)
+    rep.floor(RULE, 4)
+
+
+def run(ctx, rep):
+    eff = Effects(ctx)
+    setter, table_vars = eff.table_vars()
+    enc, chk, site, on, off = strict_check(ctx, eff)
     check_comparator(ctx, rep, chk, site)
     check_capacity_lookup(ctx, rep, eff, table_vars)
     rep.floor("Q1", 4)
@@ -354,7 +371,9 @@ def run(ctx, rep):
             o.key = o.key.replace("/G6/", "/Q4/")
             rep.counts["Q4"] = rep.counts.get("Q4", 0) + 1
     rep.counts.pop("G6", None)
-    rep.floor("Q4", 1)
+    from rules.shared import check_table_owned
+    check_table_owned(ctx, rep, "Q4")
+    rep.floor("Q4", 3)
     rep.analysed.update({"strict_check": chk.qual, "strict_only_functions": sorted(on - off), "memos": [m.qual for m in plain]})
 
 
